@@ -11,5 +11,6 @@ cd /tmp
 env -u PYHF_VERIF PYTHONPATH=/repo/src TF_CPP_MIN_LOG_LEVEL=3 timeout 900 /venv/bin/python -W ignore "$DEST/demo.py" > "$DEST/demo_unmodified.log" 2>&1; a=$?
 env -u PYHF_VERIF PYTHONPATH="$D/src" TF_CPP_MIN_LOG_LEVEL=3 timeout 900 /venv/bin/python -W ignore "$DEST/demo.py" > "$DEST/demo_patched.log" 2>&1; b=$?
 rm -rf "$D"
+echo "$a $b" > "$DEST/demo_exit_codes.txt"
 echo "$NAME: demo exit on unmodified tree = $a (want 0), with the change = $b (want != 0); patch $(grep -c '^[+-][^+-]' "$DEST/patch.diff") changed lines in $(grep -c '^diff' "$DEST/patch.diff") file(s)"
 tail -2 "$DEST/demo_patched.log" | cut -c1-300
